@@ -18,6 +18,7 @@ import (
 	"strconv"
 	"strings"
 	"sync"
+	"syscall"
 	"time"
 )
 
@@ -31,15 +32,15 @@ var VerifDir = func() string {
 }()
 
 type Check struct {
-	ID       string
-	Level    string // evidence level
-	Rule     string // how cases are enumerated / what is non-trivial
-	Assume   []string
-	Workers  int // 0 = 16
-	Serial   bool // run in the parent process only (no sharding)
-	WorkerProcs int // GOMAXPROCS of each worker (0 = 2)
-	Run      func(c *Ctx)
-	Replay   func(c *Ctx, payload json.RawMessage) // re-executes one recorded case
+	ID                          string
+	Level                       string // evidence level
+	Rule                        string // how cases are enumerated / what is non-trivial
+	Assume                      []string
+	Workers                     int  // 0 = 16
+	Serial                      bool // run in the parent process only (no sharding)
+	WorkerProcs                 int  // GOMAXPROCS of each worker (0 = 2)
+	Run                         func(c *Ctx)
+	Replay                      func(c *Ctx, payload json.RawMessage) // re-executes one recorded case
 	QuickBudget, ThoroughBudget time.Duration
 }
 
@@ -96,7 +97,7 @@ type Ctx struct {
 func newCtx(id, tier string, seed int64, shard, n int, budget time.Duration) *Ctx {
 	return &Ctx{ID: id, Tier: tier, Seed: seed, Shard: shard, N: n, Deadline: time.Now().Add(budget),
 		seen: map[uint64]struct{}{},
-		p: Partial{Counters: map[string]int64{}, Sets: map[string][]string{}, Violations: map[string]*Violation{}, Info: map[string]any{}}}
+		p:    Partial{Counters: map[string]int64{}, Sets: map[string][]string{}, Violations: map[string]*Violation{}, Info: map[string]any{}}}
 }
 
 func (c *Ctx) Thorough() bool { return c.Tier == "thorough" }
@@ -107,7 +108,9 @@ func (c *Ctx) Mine(i int64) bool { return c.N <= 1 || int((i+c.Seed)%int64(c.N))
 func h64(s string) uint64 { h := fnv.New64a(); h.Write([]byte(s)); return h.Sum64() }
 
 // MineKey shards by a hash of the case key.
-func (c *Ctx) MineKey(k string) bool { return c.N <= 1 || int((h64(k)+uint64(c.Seed))%uint64(c.N)) == c.Shard }
+func (c *Ctx) MineKey(k string) bool {
+	return c.N <= 1 || int((h64(k)+uint64(c.Seed))%uint64(c.N)) == c.Shard
+}
 
 // Eval counts one explored case; key identifies it, nontrivial per the check's rule.
 func (c *Ctx) Eval(key string, nontrivial bool) {
@@ -337,6 +340,52 @@ func budgetOf(chk *Check, tier string) time.Duration {
 	return b
 }
 
+// ProcessCPU is the CPU time (user + system) this process has used.
+func ProcessCPU() time.Duration {
+	var ru syscall.Rusage
+	if syscall.Getrusage(syscall.RUSAGE_SELF, &ru) != nil {
+		return 0
+	}
+	return time.Duration(ru.Utime.Nano() + ru.Stime.Nano())
+}
+
+// ProcessRSS is the resident set size of this process in bytes (0 if unknown).
+func ProcessRSS() int64 {
+	b, err := os.ReadFile("/proc/self/statm")
+	if err != nil {
+		return 0
+	}
+	f := strings.Fields(string(b))
+	if len(f) < 2 {
+		return 0
+	}
+	pages, _ := strconv.ParseInt(f[1], 10, 64)
+	return pages * int64(os.Getpagesize())
+}
+
+// memoryFuse protects the machine (no memory limit in the sandbox): a worker whose resident memory passes
+// VERIF_WORKER_RSS_MB (default 6144) writes what it has, marks its shard as not covered and exits. This is never
+// a verdict; checks whose property includes termination report the runaway case themselves, earlier.
+func memoryFuse(c *Ctx, out string) {
+	limit := int64(6144) << 20
+	if s := os.Getenv("VERIF_WORKER_RSS_MB"); s != "" {
+		if v, err := strconv.ParseInt(s, 10, 64); err == nil && v > 0 {
+			limit = v << 20
+		}
+	}
+	for range time.Tick(500 * time.Millisecond) {
+		if rss := ProcessRSS(); rss > limit {
+			c.Incomplete(fmt.Sprintf("worker %d stopped: resident memory %d MiB passed the fuse of %d MiB; the rest of its shard is not covered", c.Shard, rss>>20, limit>>20))
+			c.mu.Lock()
+			b, _ := json.Marshal(&c.p)
+			if os.WriteFile(out+".tmp", b, 0644) == nil {
+				os.Rename(out+".tmp", out)
+			}
+			os.Exit(0)
+		}
+	}
+}
+
 func workerMain(args []string) {
 	// -worker ID tier seed shard n budget_s outfile
 	id, tier := args[0], args[1]
@@ -349,6 +398,7 @@ func workerMain(args []string) {
 	c := newCtx(id, tier, seed, shard, n, time.Duration(bs*float64(time.Second)))
 	os.Setenv("VERIF_SCRATCH", filepath.Join(os.Getenv("VERIF_SCRATCH"), fmt.Sprintf("w%d", shard)))
 	os.MkdirAll(os.Getenv("VERIF_SCRATCH"), 0755)
+	go memoryFuse(c, out)
 	if pf := os.Getenv("VERIF_PPROF"); pf != "" {
 		f, _ := os.Create(fmt.Sprintf("%s.%d", pf, shard))
 		pprof.StartCPUProfile(f)
